@@ -27,6 +27,12 @@ func (k msgServer) CreatePromoter(goCtx context.Context, msg *types.MsgCreatePro
 		return nil, err
 	}
 
+	// an address belongs to one promoter: a second promoter of the same address would overwrite the
+	// promoter-by-address record, and the campaigns and rewards of the first promoter would be attributed to the new one
+	if existing, isFound := k.GetPromoterByAddress(ctx, msg.Creator); isFound {
+		return nil, sdkerrors.Wrapf(sdkerrtypes.ErrInvalidRequest, "address %s is already registered for the promoter %s", msg.Creator, existing.PromoterUID)
+	}
+
 	k.SetPromoter(ctx, types.Promoter{
 		Creator:   msg.Creator,
 		Addresses: []string{msg.Creator},
